@@ -454,10 +454,8 @@ def bounded(rep, tier):
             except RecursionError:
                 fails.setdefault(f'C02.bounded.{dname}.RecursionError', (sql[:120], 'RecursionError'))
             except Exception as e:
-                tb = traceback.extract_tb(e.__traceback__)
-                fr = [f for f in tb if '/mindsdb_sql/' in f.filename or '/sly/' in f.filename]
-                where = fr[-1].name if fr else '?'
-                fails.setdefault(f'C02.bounded.{dname}.{type(e).__name__}.{where}', (sql, f'{type(e).__name__}: {str(e)[:100]}'))
+                from vlib.core import exc_class_id
+                fails.setdefault(f'C02.bounded.{dname}.{exc_class_id(e)}', (sql, f'{type(e).__name__}: {str(e)[:100]}'))
     rep.bounded_evals = n
     rep.bounded_rule = ('one shortest sentence per production (every 3rd in quick) + random single-token deletions/duplications/replacements/insertions (token kinds from the real lexer) '
                         '+ unicode / unterminated / deeply nested samples x 3 dialects; outcome must be an ASTNode, ParsingException or LexError; failures grouped by exception class x raising function')
